@@ -81,7 +81,10 @@ theorem sel_len (l : List Nat) (a N : Nat) (hl : Asc l) (hb : ∀ x ∈ l, x < N
 /-- the ENUM loop has between 1 and 86400 rounds -/
 theorem times_bounds (r : Rule) (p : Inst) (hr : WfRule r) :
     1 ≤ (makeEnum p r).times.length ∧ (makeEnum p r).times.length ≤ 86400 := by
-  rw [times_length, makeEnum_eq]
+  rw [times_length]
+  by_cases had : p.H = allDay
+  · rw [makeEnum_allDay p r had]; simp
+  rw [makeEnum_timed p r had]
   dsimp only
   obtain ⟨h1, h2⟩ := sel_len r.H p.H 24 hr.hours.1 hr.hours.2 (by omega)
   obtain ⟨m1, m2⟩ := sel_len r.M p.M 60 hr.mins.1 hr.mins.2 (by omega)
